@@ -80,4 +80,124 @@ InQuantifier(T, sep) ==
 \* the property: what is written reads back identically
 RoundTrip(T, sep, align) ==
   InQuantifier(T, sep) => Same(ParseTable(RenderTable(T, sep, align), sep, T.cols # <<>>), T)
+
+\* ------------------------------------------------------------------ the object, call by call
+\* Sem(op, a, T): what one public call of DataTable does to table T.
+\*   refuse = set of documented exception classes whose condition holds ("*" = a refusal that the
+\*            header does not name: any library exception); empty = the call succeeds
+\*   post   = the table afterwards (= T for queries),  val = the returned value (<<>> if none)
+\* A refused call changes nothing.  Indices are 0-based as in the C++ interface.  Where several
+\* refusal conditions hold the header does not say which one is reported: any of them is accepted.
+IOOB  == "IndexOutOfBoundsException"
+DIM   == "DimensionException"
+NOROW == "NoTableRowNamesException"
+NOCOL == "NoTableColumnNamesException"
+NNF   == "TableNameNotFoundException"
+RNF   == "TableRowNameNotFoundException"
+CNF   == "TableColumnNameNotFoundException"
+DUPR  == "DuplicatedTableRowNameException"
+DUPC  == "DuplicatedTableColumnNameException"
+HASR  == "TableRowNamesException"
+HASC  == "TableColumnNamesException"
+\* a thrown class x satisfies the documented class c (a subclass is its base class)
+Satisfies(x, c) == c = "*" \/ x = c \/ (c = NNF /\ x \in {RNF, CNF})
+
+R(set, post, val) == [refuse |-> set, post |-> post, val |-> val]
+If(c, x) == IF c THEN {x} ELSE {}
+Pos(ns, n) == CHOOSE k \in DOMAIN ns : ns[k] = n            \* 1-based position of a name
+Without(q, k) == SubSeq(q, 1, k - 1) \o SubSeq(q, k + 1, Len(q))
+Column(T, j) == [i \in 1..T.nrow |-> T.cells[i][j]]
+NewTable(nr, nc, cols) == [ncol |-> nc, nrow |-> nr, cols |-> cols, rows |-> <<>>,
+                           cells |-> [i \in 1..nr |-> [j \in 1..nc |-> <<>>]]]
+DelRow(T, i) == [T EXCEPT !.cells = Without(@, i), !.nrow = @ - 1, !.rows = IF @ = <<>> THEN <<>> ELSE Without(@, i)]
+DelCol(T, j) == [T EXCEPT !.cells = [i \in 1..T.nrow |-> Without(T.cells[i], j)], !.ncol = @ - 1,
+                          !.cols = IF @ = <<>> THEN <<>> ELSE Without(@, j)]
+SetCell(T, i, j, v) == [T EXCEPT !.cells[i][j] = v]
+
+\* the four ways to address a cell: refusal set and (1-based) coordinates
+AddrII(T, a) == [ref |-> If(a.j >= T.ncol \/ a.i >= T.nrow, IOOB), i |-> a.i + 1, j |-> a.j + 1]
+AddrNN(T, a) == [ref |-> If(T.rows = <<>>, NOROW) \cup If(T.cols = <<>>, NOCOL)
+                         \cup If((T.rows # <<>> /\ a.rn \notin Range(T.rows)) \/ (T.cols # <<>> /\ a.cn \notin Range(T.cols)), NNF),
+                 i |-> IF a.rn \in Range(T.rows) THEN Pos(T.rows, a.rn) ELSE 0,
+                 j |-> IF a.cn \in Range(T.cols) THEN Pos(T.cols, a.cn) ELSE 0]
+AddrNI(T, a) == [ref |-> If(T.rows = <<>>, NOROW) \cup If(a.j >= T.ncol, IOOB) \cup If(T.rows # <<>> /\ a.rn \notin Range(T.rows), NNF),
+                 i |-> IF a.rn \in Range(T.rows) THEN Pos(T.rows, a.rn) ELSE 0, j |-> a.j + 1]
+AddrIN(T, a) == [ref |-> If(T.cols = <<>>, NOCOL) \cup If(a.i >= T.nrow, IOOB) \cup If(T.cols # <<>> /\ a.cn \notin Range(T.cols), NNF),
+                 i |-> a.i + 1, j |-> IF a.cn \in Range(T.cols) THEN Pos(T.cols, a.cn) ELSE 0]
+GetAt(T, ad) == IF ad.ref # {} THEN R(ad.ref, T, <<>>) ELSE R({}, T, T.cells[ad.i][ad.j])
+SetAt(T, ad, v) == IF ad.ref # {} THEN R(ad.ref, T, <<>>) ELSE R({}, SetCell(T, ad.i, ad.j, v), <<>>)
+
+Sem(op, a, T) ==
+  CASE op = "new_rc" -> R({}, NewTable(a.nr, a.nc, <<>>), <<>>)
+    [] op = "new_c" -> R({}, NewTable(0, a.nc, <<>>), <<>>)
+    [] op = "new_rnames" -> R(If(~Distinct(a.names), DUPC), NewTable(a.nr, Len(a.names), a.names), <<>>)
+    [] op = "new_names" -> R(If(~Distinct(a.names), DUPC), NewTable(0, Len(a.names), a.names), <<>>)
+    [] op = "copy" -> R({}, T, <<>>)                         \* T2(T); T = T2
+    [] op = "assign" -> R({}, a.t, <<>>)                     \* T = other table
+    [] op = "get_ii" -> GetAt(T, AddrII(T, a))
+    [] op = "set_ii" -> SetAt(T, AddrII(T, a), a.v)
+    [] op = "get_nn" -> GetAt(T, AddrNN(T, a))
+    [] op = "set_nn" -> SetAt(T, AddrNN(T, a), a.v)
+    [] op = "get_ni" -> GetAt(T, AddrNI(T, a))
+    [] op = "set_ni" -> SetAt(T, AddrNI(T, a), a.v)
+    [] op = "get_in" -> GetAt(T, AddrIN(T, a))
+    [] op = "set_in" -> SetAt(T, AddrIN(T, a), a.v)
+    [] op = "ncols" -> R({}, T, T.ncol)
+    [] op = "nrows" -> R({}, T, T.nrow)
+    \* columns
+    [] op = "setColNames" -> R(If(Len(a.names) # T.ncol, DIM) \cup If(~Distinct(a.names), DUPC), [T EXCEPT !.cols = a.names], <<>>)
+    [] op = "getColNames" -> R(If(T.cols = <<>>, NOCOL), T, T.cols)
+    [] op = "getColName" -> R(If(T.cols = <<>>, NOCOL) \cup If(a.i >= T.ncol, IOOB), T, IF a.i < Len(T.cols) THEN T.cols[a.i + 1] ELSE <<>>)
+    [] op = "hasColNames" -> R({}, T, T.cols # <<>>)
+    [] op = "getCol_i" -> R(If(a.i >= T.ncol, IOOB), T, IF a.i < T.ncol THEN Column(T, a.i + 1) ELSE <<>>)
+    [] op = "getCol_n" -> R(If(T.cols = <<>>, NOCOL) \cup If(T.cols # <<>> /\ a.name \notin Range(T.cols), CNF), T,
+                            IF a.name \in Range(T.cols) THEN Column(T, Pos(T.cols, a.name)) ELSE <<>>)
+    [] op = "hasCol" -> R({}, T, a.name \in Range(T.cols))
+    [] op = "delCol_i" -> R(If(a.i >= T.ncol, IOOB), IF a.i < T.ncol THEN DelCol(T, a.i + 1) ELSE T, <<>>)
+    [] op = "delCol_n" -> R(If(T.cols = <<>>, NOCOL) \cup If(T.cols # <<>> /\ a.name \notin Range(T.cols), CNF),
+                            IF a.name \in Range(T.cols) THEN DelCol(T, Pos(T.cols, a.name)) ELSE T, <<>>)
+    [] op = "addCol" -> R(If(T.cols # <<>>, HASC) \cup If(Len(a.vec) # T.nrow, DIM),
+                          IF Len(a.vec) = T.nrow THEN [T EXCEPT !.cells = [i \in 1..T.nrow |-> Append(T.cells[i], a.vec[i])], !.ncol = @ + 1] ELSE T, <<>>)
+    [] op = "addCol_n" -> R(If(T.cols = <<>> /\ T.ncol # 0, NOCOL) \cup If(Len(a.vec) # T.nrow, DIM) \cup If(a.name \in Range(T.cols), DUPC),
+                            IF Len(a.vec) = T.nrow
+                            THEN [T EXCEPT !.cells = [i \in 1..T.nrow |-> Append(T.cells[i], a.vec[i])], !.ncol = @ + 1, !.cols = Append(@, a.name)]
+                            ELSE T, <<>>)
+    \* rows
+    [] op = "setRowNames" -> R(If(Len(a.names) # T.nrow, DIM) \cup If(~Distinct(a.names), DUPR), [T EXCEPT !.rows = a.names], <<>>)
+    [] op = "setRowName" -> R(If(T.rows = <<>>, NOROW) \cup If(a.i >= T.nrow, DIM) \cup If(a.name \in Range(T.rows), DUPR),
+                              IF a.i < Len(T.rows) THEN [T EXCEPT !.rows[a.i + 1] = a.name] ELSE T, <<>>)
+    [] op = "getRowNames" -> R(If(T.rows = <<>>, NOROW), T, T.rows)
+    [] op = "getRowName" -> R(If(T.rows = <<>>, NOROW) \cup If(a.i >= T.nrow, IOOB), T, IF a.i < Len(T.rows) THEN T.rows[a.i + 1] ELSE <<>>)
+    [] op = "hasRowNames" -> R({}, T, T.rows # <<>>)
+    [] op = "hasRow" -> R({}, T, a.name \in Range(T.rows))
+    [] op = "getRow_i" -> R(If(a.i >= T.nrow, IOOB), T, IF a.i < T.nrow THEN T.cells[a.i + 1] ELSE <<>>)
+    [] op = "getRow_n" -> R(If(T.rows = <<>>, NOROW) \cup If(T.rows # <<>> /\ a.name \notin Range(T.rows), RNF), T,
+                            IF a.name \in Range(T.rows) THEN T.cells[Pos(T.rows, a.name)] ELSE <<>>)
+    [] op = "delRow_i" -> R(If(a.i >= T.nrow, IOOB), IF a.i < T.nrow THEN DelRow(T, a.i + 1) ELSE T, <<>>)
+    [] op = "delRow_n" -> R(If(T.rows = <<>>, NOROW) \cup If(T.rows # <<>> /\ a.name \notin Range(T.rows), RNF),
+                            IF a.name \in Range(T.rows) THEN DelRow(T, Pos(T.rows, a.name)) ELSE T, <<>>)
+    [] op = "addRow" -> R(If(T.rows # <<>>, HASR) \cup If(Len(a.vec) # T.ncol, DIM),
+                          [T EXCEPT !.cells = Append(@, a.vec), !.nrow = @ + 1], <<>>)
+    [] op = "addRow_n" -> R(If(T.rows = <<>> /\ T.nrow # 0, NOROW) \cup If(Len(a.vec) # T.ncol, DIM) \cup If(a.name \in Range(T.rows), DUPR),
+                            [T EXCEPT !.cells = Append(@, a.vec), !.nrow = @ + 1, !.rows = Append(@, a.name)], <<>>)
+    [] op = "setRow" -> R(If(a.i >= T.nrow \/ Len(a.vec) # T.ncol, "*"),
+                          IF a.i < T.nrow THEN [T EXCEPT !.cells[a.i + 1] = a.vec] ELSE T, <<>>)
+    \* text
+    [] op = "write" -> R({}, T, RenderTable(T, a.sep, a.align))
+
+\* DataTable::read(text, sep, header, rowNames): a new table.  decided = FALSE: fewer than two
+\* non-blank lines, the documentation does not say what is built.
+ReadSem(text, sep, header, rn) ==
+  LET L == TextLines(text)  P == ParseTable(text, sep, header) IN
+  IF Len(L) < 2 THEN [decided |-> FALSE, refuse |-> {}, post |-> NoTable]
+  ELSE IF ~P.ok THEN [decided |-> TRUE, refuse |-> {DIM}, post |-> NoTable]
+  ELSE LET T0 == [ncol |-> P.ncol, nrow |-> P.nrow, cols |-> P.cols, rows |-> P.rows, cells |-> P.cells]
+           n1 == Len(Fields(L[1], sep))
+           bad0 == If(~Distinct(P.cols), DUPC) \cup If(~Distinct(P.rows), DUPR) IN
+       IF bad0 # {} THEN [decided |-> TRUE, refuse |-> bad0, post |-> NoTable]
+       ELSE IF rn < 0 THEN [decided |-> TRUE, refuse |-> {}, post |-> T0]
+       ELSE IF rn >= n1 THEN [decided |-> TRUE, refuse |-> {IOOB}, post |-> NoTable]
+       ELSE LET names == Column(T0, rn + 1) IN
+            IF ~Distinct(names) THEN [decided |-> TRUE, refuse |-> {DUPR}, post |-> NoTable]
+            ELSE [decided |-> TRUE, refuse |-> {}, post |-> [DelCol(T0, rn + 1) EXCEPT !.rows = names]]
 =============================================================================
